@@ -53,7 +53,7 @@ def replay_file(path):
         print('outcome:', rep['outcome'])
         print('violated clauses on the real code:', sorted(rep['violated']))
         return 1 if rep['violated'] else 0
-    if 'history' in d:
+    if 'part' in d:
         from bounded import parts
         return parts.replay(d)
     print(json.dumps(d, indent=1)[:2000])
